@@ -96,7 +96,7 @@ def hex_text(binary, comments=None):
     return s.getvalue()
 
 
-def crafted_bf3(r):
+def crafted_bf3(r, big=True):
     """near-valid binaries aimed at the sites the property names (MACs recomputed with the library's cmac to craft inputs only)"""
     out = []
     key = L.ZERO_KEY
@@ -114,6 +114,20 @@ def crafted_bf3(r):
     e = entry(5 + 4 + 1 + 48 + 1, 8, 8, cmac(pay, key), tlv, 1)
     d = bytes([len(e)]) + e + b"\x00"
     out.append(("enc-length-8", BF3_FILE_SIG + len(d).to_bytes(4, "big") + d + pay))
+    # directories with 255, 256, 257 and 300 entries (assembled here; entry MACs chained from the 1-based index as a 128-bit number):
+    # the genuine file, and the file whose LAST entry was MAC'd with the index reduced modulo 256
+    for n in ((255, 256, 257, 300) if big else ()):
+        for wrap in (False, True):
+            dirlen = 4 + n * (1 + 45) + 1
+            ents, pays = [], b""
+            for j in range(1, n + 1):
+                pay = bytes([j % 255 + 1])
+                idx = (j % 256) if (wrap and j == n) else j
+                e = entry(5 + dirlen + len(pays), 1, 1, cmac(pay, key), b"", idx)
+                ents.append(bytes([len(e)]) + e)
+                pays += pay
+            d = b"".join(ents) + b"\x00"
+            out.append(("entries-%d%s" % (n, "-last-index-mod-256" if wrap else ""), BF3_FILE_SIG + len(d).to_bytes(4, "big") + d + pays))
     # huge length fields
     for field in ("dirsize", "total"):
         f = L.Bf3File({}, [L.mk_comp({}, b"\x01\x02\x03")])
@@ -173,7 +187,7 @@ def behaviour_probe():
 
 
 def _worker(args):
-    seed, n, tier = args
+    seed, n, tier, widx = args
     import random
     r = random.Random(seed)
     rec = L.Rec()
@@ -226,7 +240,7 @@ def _worker(args):
             B2.rec_bec2_read(rec, text, decs, privs, orc, chk, label=label)
 
         # ---- crafted inputs (every worker runs them once: cheap)
-        for name, b in crafted_bf3(r):
+        for name, b in crafted_bf3(r, big=(widx in (0, 1))):        # (the large directories in two workers only)
             do_bf3(hex_text(b), L.ZERO_KEY, "crafted:" + name)
         plan0 = bec2[0][1]
         body = Bf3File({}, [L.mk_comp({}, b"\x01")])
@@ -337,7 +351,7 @@ def run(tier):
         rep.cov["parts"]["selftests"] = ["vacuity: TLC finds an accepted string among the arbitrary ones"]
         per = 180 if tier == "quick" else 6000
         with mp.Pool(16) as pool:
-            lists = pool.map(_worker, [(r.randrange(1 << 30), per, tier) for _ in range(16)])
+            lists = pool.map(_worker, [(r.randrange(1 << 30), per, tier, w) for w in range(16)])
         rec = L.Rec()
         for evs in lists:
             for e in evs:
